@@ -400,7 +400,7 @@ class Scenario(Session):
         self.mark_all_cancelled(); op.cancelled = False
         self.do(f"disc {name} {rc} {ref.plist_text(ps)}")
         self.count("disc")
-        behaviour = rng.choice(["ok", "ok", "silent", "drop", "slow-shutdown", "late-ok"])
+        behaviour = rng.choice(["ok", "ok", "silent", "drop", "slow-shutdown", "late-ok", "fatal"])
         op.behaviour = behaviour
         old = self.disc_sid
         for it in range(40):
@@ -423,6 +423,14 @@ class Scenario(Session):
                         self.write_pending[old] = pk; self.advance(rng.choice([1000, 2500])); 
                     continue
                 self.advance(rng.choice([1, 1000]))
+            elif behaviour == "fatal":
+                # the write in progress (the DISCONNECT, or what it waits behind) ends with an error that is not worth a reconnect
+                if old in self.write_pending:
+                    pk = self.write_pending.pop(old)
+                    for w in reversed(self.wlog):
+                        if w["result"] is None and w["pk"] == pk: w["result"] = "no_recovery"; w["i_done"] = len(self.tr); break
+                    self.do(f"wdone {old} no_recovery"); self.count("disc-write-fatal")
+                behaviour = "ok"
             elif behaviour == "silent":
                 self.advance(rng.choice([1000, 2000, 4999, 5000]))
             elif behaviour == "drop":
